@@ -395,6 +395,13 @@ def run(ctx):
                 elif looked_up is None:
                     looked_up = False
         verdict1 = False if not gets else (None if looked_up is None else bool(on_body and looked_up))
+        # every collected name is visited: an adapter that can end or thin out the walk over the names leaves later names uncaptured
+        cut = []
+        for x in H.walk(lam["body"]):
+            if H.kind(x) == "MethodCall" and x["name"] in ("take_while", "take", "skip", "skip_while", "step_by", "nth", "map_while") and rooted_at(x["recv"], V):
+                cut.append("%s at %s" % (x["name"], H.loc(x)))
+        if cut:
+            verdict1 = False
         ctx.inst("C04.R2", "capture#from-definition-environment", verdict1,
                  "free names of the body are collected once (on the body: %s) and each is looked up in the defining environment: %s" % (on_body, looked_up), H.loc(lam["body"]))
         # parameters are excluded: the bound set handed to the analysis is seeded from the parameter list
@@ -412,6 +419,12 @@ def run(ctx):
         ctx.inst("C04.R2", "capture#parameters-excluded", seeded, "the bound set handed to the capture analysis is seeded with the parameter names: %s" % seeded, H.loc(lam["body"]))
 
     capture_by_name(ctx, "C04.R2", core)
+
+    # ---------------- R5 a parameter is bound under the name the user wrote
+    from lib.peg import Grammar as G_
+    from rules import c10 as c10_
+    ctx.rule("C04.R5", "a parameter's name is the identifier the user wrote: the AST builder takes it from the identifier token, not from the text of the whole `name?` / `...name` parameter (which may contain the spaces the grammar admits between the parts - the parameter would be bound under a name with a space and the real name would dangle)", floor=3)
+    c10_.names_from_tokens(_Only(ctx, lambda k_: "LambdaArg" in k_ or k_ == "sites"), "C04.R5", core, G_(ctx.grammar), declare=False)
 
     # ---------------- R3 arity classes and positional binding
     ctx.rule("C04.R3", "the three arity classes are tested identically in check_arity's built-in copy, its lambda copy and can_accept (== n; >= min; >= min && <= max); get_arity classifies by rest / all-required / optional; required, optional and rest parameters bind positionally", floor=10)
